@@ -47,6 +47,8 @@ pub struct Case {
     /// run the context inside a loop inside a function of the parent
     #[serde(default)]
     pub in_loop_function: bool,
+    #[serde(default)]
+    pub via_entry: bool,
     pub front_end: FrontEnd,
     pub cfg: SimConfig,
     pub cfg_b: SimConfig,
@@ -271,7 +273,8 @@ impl C12 {
         let cfg_b = gen_cfg(&mut rng);
         let wait_job_spec = rng.below(3) == 0;
         let in_loop_function = rng.below(4) == 0;
-        Case { class, context, mutators, second, parent_activity, wait_job_spec, in_loop_function, front_end, cfg, cfg_b }
+        let via_entry = rng.below(6) == 0;
+        Case { class, context, mutators, second, parent_activity, wait_job_spec, in_loop_function, via_entry, front_end, cfg, cfg_b }
     }
 }
 
@@ -353,6 +356,7 @@ pub fn judge(case: &Case) -> Verdict {
         let mut spec = RunSpec::new(script.clone(), case.front_end.clone(), cfg.clone());
         spec.needs_dir = true;
         spec.files = files.clone();
+        spec.via_entry = case.via_entry;
         let r = runner::run(&spec);
         v.hashes.push(r.loghash);
         v.shapes.push(r.shapehash);
@@ -487,6 +491,7 @@ impl Check for C12 {
                     parent_activity: vec![],
                     wait_job_spec: (ci + mi) % 2 == 0,
                     in_loop_function: (ci + mi) % 5 == 0,
+                    via_entry: false,
                     front_end: FrontEnd::DashC,
                     cfg: cfg.clone(),
                     cfg_b: cfg,
